@@ -60,16 +60,17 @@ ASSUMPTIONS = [
     "1e-8 + 4e-5 nm / |dw| where dw = dV / distribution is the width difference the library divided by",
     "DA with the exponent left free: minimize_scalar 'bounded' (xatol 1e-5): exponent abs 2e-4, the outputs that depend on "
     "the exponent rel 2e-3",
-    "psd_dft (SLSQP, ftol 1e-4 absolute): fitted kernel_loading within 1e-3 of its maximum, cumulative volume and "
-    "distribution within 1e-2 of their maximum; the scaling clause is not asserted for psd_dft (the entry point is not "
-    "in the property's list and its absolute ftol is the subject of C18)",
+    "psd_dft (non-negative least squares, exact active-set solver): fitted kernel_loading rel 1e-9, distribution and "
+    "cumulative volume rel 1e-8 with a floor of 1e-9 of their maximum (the contributions solve an ill-conditioned linear "
+    "system; observed worst deviation 1e-12); psd_dft is not in the property's list of entry points but produces one "
+    "of the 'pore-size distributions' of its statement",
     "initial_henry_slope / initial_henry_virial run scipy least_squares with default tolerances (1e-8): the converted "
     "constant must equal factor x original within 1e-5 (slope) / 1e-4 (virial) plus the documented inaccuracy of "
     "rounded unit constants (ref_units.UNIT_INACCURACY)",
     "CoolProp PropsSI (high level) is the source of p_sat, molar mass and saturated densities for the expected unit "
     "factors of results reported in the isotherm's own units",
-    "alpha-s: the sample's pressure range lies inside the reference's (documented precondition of the interpolation); "
-    "reference_area is 'BET' or 'langmuir' (a numeric one is refused today, known finding of C14)",
+    "alpha-s: the sample's pressure range lies strictly inside the reference's (documented precondition of the "
+    "interpolation; a unit round trip may move an end point by one ulp); reference_area is 'BET', 'langmuir' or a number",
     "isosteric enthalpy: sibling isotherms keep one common loading basis and the stored material basis (otherwise the "
     "routine refuses by design); loading points are the routine's default grid",
     "sample data are read from $VERIF_REPO/docs/examples/data, falling back to /repo/docs/examples/data when a scratch "
@@ -113,7 +114,8 @@ SAMPLES = {
     "MOF-5 C2H6": "iast/MOF-5(Zn) - IAST - C2H6.json",
     "MOF-5 CH4": "iast/MOF-5(Zn) - IAST - CH4.json",
 }
-N2_SAMPLES = ["MCM-41", "NaY", "SiO2", "Takeda 5A", "UiO-66(Zr)", "Carbon X1"]
+# (the first entry of a list is what hypothesis' first, minimal example of every shard uses: a bar-stored sample)
+N2_SAMPLES = ["NaY", "MCM-41", "SiO2", "Takeda 5A", "UiO-66(Zr)", "Carbon X1"]
 SUPERCRITICAL = {"MOF-5 CH4"}  # no relative pressure, no volume bases
 _SAMPLE_TEXT = {}
 
@@ -353,6 +355,7 @@ _P_ABS = [r for r in ru.P_REPS if r[0] == "absolute"]
 P_TARGETS = [["relative", None]] * 3 + [["relative%", None]] * 2 + [list(r) for r in _P_ABS]
 L_TARGETS = [list(r) for r in ru.L_REPS if r[1] is not None]
 assert len(L_TARGETS) == 25
+L_TARGETS.sort(key=lambda r: r != ["volume_liquid", "cm3"])  # stable: a basis change first, then the table order
 L_BY_BASIS = {b: [r for r in L_TARGETS if r[0] == b] for b in ("molar", "mass", "volume_gas", "volume_liquid")}
 P_SOURCES = [["absolute", "bar"]] * 2 + [["relative", None]] * 2 + [["absolute", "kPa"], ["absolute", "torr"],
                                                                  ["relative%", None], ["absolute", "Pa"]]
@@ -726,15 +729,14 @@ ALPHAS_PAIRS = [("SiO2", "ads", "NaY", "ads"), ("SiO2", "ads", "MCM-41", "ads"),
 # the reference target: relative mode / molar basis in most draws (outside them the known findings apply)
 REF_P_TARGETS = [["relative", None]] * 7 + [["relative%", None], ["absolute", "bar"], ["absolute", "kPa"],
                                             ["absolute", "torr"]]
-REF_L_TARGETS = [r for r in L_TARGETS if r[0] == "molar"] * 2 + [["mass", "mg"], ["volume_liquid", "cm3"],
-                                                                ["volume_gas", "L"]]
+REF_L_TARGETS = L_TARGETS
 
 
 @st.composite
 def strat_alphas(draw):
     # categorical choices first (draws that follow long lists come out skewed)
     kind = draw(st.sampled_from(["sample", "syn", "syn"]))
-    d = {"area": draw(st.sampled_from(["BET", "langmuir", "BET"])),
+    d = {"area": draw(st.sampled_from(["BET", "langmuir", 312.5, "BET", "langmuir", 1])),
          "reducing": draw(st.sampled_from([None, 0.3, None, 0.5])),
          "branch": draw(st.sampled_from(["ads", "ads", "ads", "des"])),
          "branch_ref": draw(st.sampled_from(["ads", "ads", "ads", "des"])),
@@ -753,8 +755,7 @@ def strat_alphas(draw):
         return d
     ref_p = list(draw(st.sampled_from([["relative", None]] * 6 + [["absolute", "bar"], ["relative%", None],
                                                                  ["absolute", "kPa"]])))
-    ref_l = list(draw(st.sampled_from([["molar", "mmol"]] * 4 + [["molar", "cm3(STP)"], ["molar", "mol"],
-                                                                ["mass", "mg"]])))
+    ref_l = list(draw(st.sampled_from(L_SOURCES)))
     fam = draw(st.sampled_from(["bet", "lang", "meso"]))
     src_p = list(draw(st.sampled_from(P_SOURCES)))
     src_l = list(draw(st.sampled_from(L_SOURCES)))
@@ -841,7 +842,7 @@ def check_alphas(desc, ctx):
     base = run_pair(
         ctx, desc, "alpha_s", what + f" with the reference converted to ({rt['p']}, {rt['l']}, {rt['t']})", iso, run,
         norm, label_extra=("branch_" + branch, "branch_ref_" + branch_ref,
-                           "limits_auto" if lims is None else "limits_manual", "area_" + desc["area"],
+                           "limits_auto" if lims is None else "limits_manual", "area_" + str(desc["area"]),
                            f"ref_p:{ref.pressure_mode}->{rt['p'][0]}", f"ref_l:{ref.loading_basis}->{rt['l'][0]}",
                            "ref_changes_mode_or_basis" if changes_mode_or_basis(ref, rt) else "ref_same_mode_and_basis"),
         key_extra=[iso_key(desc["ref"]), branch, branch_ref, desc["area"], reducing, lims, rt["p"], rt["l"]])
@@ -922,7 +923,7 @@ def strat_meso():
                                                     "thickness": th, "kelvin": kel, "limits": lim, "tgt": tgt, "scale": sc},
         st.sampled_from(MESO_VARIANTS), st.sampled_from(["des", "ads"]),
         st.sampled_from(["Harkins/Jura", "Halsey", "Harkins/Jura"]), st.sampled_from(["Kelvin", "Kelvin-KJS", "Kelvin"]),
-        limits(), target(), scale_factor(), iso_source(["MCM-41", "SiO2", "NaY", "UiO-66(Zr)"], ["meso", "bet", "meso"]))
+        limits(), target(), scale_factor(), iso_source(["SiO2", "MCM-41", "NaY", "UiO-66(Zr)"], ["meso", "bet", "meso"]))
 
 
 def check_meso(desc, ctx):
@@ -1006,9 +1007,9 @@ def check_micro(desc, ctx):
     iso = build_iso(desc["iso"])
     branch = pick_branch(iso, desc)
     prel = ordered(iso, branch)
-    # every point costs one bounded minimisation (0.2 ms slit ... 90 ms Rege-Yang cylinder): cap the window
+    # every point costs one bounded minimisation (0.2 ms slit ... 10 ms Rege-Yang cylinder): cap the window
     slow = desc["model"].startswith("RY") and desc["geometry"] == "cylinder"
-    cap = 6 if slow else 25
+    cap = 12 if slow else 30
     if desc["limits"] is None and not slow and int(np.sum(prel < 0.2)) <= 70:
         lims = None  # the documented default window (None, 0.2)
     else:
@@ -1061,8 +1062,8 @@ def check_micro(desc, ctx):
 # =====================================================================================================================
 def strat_dft():
     return st.builds(
-        lambda lim, order, tgt, iso: {"iso": iso, "limits": lim, "bspline": order, "tgt": tgt, "scale": None},
-        limits(), st.sampled_from([2, 0, 2, 3]), target(),
+        lambda lim, order, tgt, sc, iso: {"iso": iso, "limits": lim, "bspline": order, "tgt": tgt, "scale": sc},
+        limits(), st.sampled_from([2, 0, 2, 3]), target(), scale_factor(),
         iso_source(["Takeda 5A", "UiO-66(Zr)", "Carbon X1", "MCM-41"], ["micro", "lang", "meso"], gases=("N2",),
                    des_share=4, n_max=30))
 
@@ -1084,15 +1085,18 @@ def check_dft(desc, ctx):
         kl = np.asarray(res["kernel_loading"], dtype=float)
         cum = np.asarray(res["pore_volume_cumulative"], dtype=float)
         dist = np.asarray(res["pore_distribution"], dtype=float)
+        # non-negative least squares (active-set, exact): the fitted loading is well conditioned; the contributions of
+        # individual widths are the solution of an ill-conditioned linear system (kernel columns are nearly collinear)
+        vmax = float(np.max(np.abs(cum)))
         return {
             "limits": (tuple(int(v) for v in res["limits"]), "idx", 0, 0),
             "pore_widths": (res["pore_widths"], 0, REG, 0.0),
-            "kernel_loading": (kl, 1, 0.0, 1e-3 * float(np.max(np.abs(kl)))),
-            "pore_volume_cumulative": (cum, 1, 0.0, 1e-2 * float(np.max(np.abs(cum)))),
-            "pore_distribution": (dist, 1, 0.0, 1e-2 * float(np.max(np.abs(dist)))),
+            "kernel_loading": (kl, 1, REG, 1e-10 * float(np.max(np.abs(kl)))),
+            "pore_volume_cumulative": (cum, 1, 1e-8, 1e-9 * vmax),
+            "pore_distribution": (dist, 1, 1e-8, 1e-9 * float(np.max(np.abs(dist)))),
         }
 
-    run_pair(ctx, desc, "psd_dft", what, iso, run, norm, scale_ok=False,
+    run_pair(ctx, desc, "psd_dft", what, iso, run, norm,
              label_extra=("limits_none" if lims is None else "limits_manual", f"bspline_{desc['bspline']}"),
              key_extra=[lims, desc["bspline"]])
 
@@ -1100,8 +1104,7 @@ def check_dft(desc, ctx):
 # =====================================================================================================================
 # initial Henry constants: reported in the isotherm's own units
 # =====================================================================================================================
-HENRY_SAMPLES = ["MCM-41", "SiO2", "NaY", "Takeda 5A", "UiO-66(Zr)", "BAX-298", "BAX-323", "BAX-348", "MOF-5 C2H6",
-                 "MOF-5 CH4"]
+HENRY_SAMPLES = ["SiO2", "MCM-41", "NaY", "BAX-298", "BAX-323", "BAX-348", "MOF-5 C2H6", "MOF-5 CH4"]
 
 
 @st.composite
@@ -1307,13 +1310,15 @@ def check_isosteric(desc, ctx):
     def norm(res, factor=1.0):
         h = np.asarray(res["isosteric_enthalpy"], dtype=float)
         sl = np.asarray(res["slopes"], dtype=float)
-        return {
-            "loading": (np.asarray(res["loading"], dtype=float) * factor, 1, ltol if factor != 1.0 else REG, 0.0),
+        out = {
             "isosteric_enthalpy": (h, 0, 1e-7, 1e-7 * float(np.max(np.abs(h)))),
             "slopes": (sl, 0, 1e-7, 1e-7 * float(np.max(np.abs(sl)))),
-            "correlation": (res["correlation"], 0, 1e-6, 1e-6),
-            "std_errs": (res["std_errs"], 0, 1e-4, 1e-7 * float(np.max(np.abs(h)))),
+            "loading": (np.asarray(res["loading"], dtype=float) * factor, 1, ltol if factor != 1.0 else REG, 0.0),
         }
+        if len(isos) > 2:  # a line through two points: correlation +-1 and a 0/0 standard error
+            out["correlation"] = (res["correlation"], 0, 1e-6, 1e-6)
+            out["std_errs"] = (res["std_errs"], 0, 1e-4, 1e-7 * float(np.max(np.abs(h))))
+        return out
 
     base = norm(outcomes[0][1], fl)  # the loading axis is reported in the first isotherm's own units
     other = norm(outcomes[1][1])
@@ -1336,6 +1341,75 @@ def check_isosteric(desc, ctx):
     if nt:
         ctx.nt(["isosteric", desc["kind"], desc.get("members"), desc.get("gas"), len(isos),
                 [(t["p"], t["l"], t["t"]) for t in tgts]], desc)
+
+
+# =====================================================================================================================
+# class predicates of the open known findings (findings/pending/C15.json)
+# =====================================================================================================================
+def _ref_stored(desc):
+    """(pressure mode, loading basis) the alpha-s reference isotherm is stored in."""
+    r = desc["ref"]
+    if r["kind"] == "sample":
+        return ("relative" if r["name"] == "MCM-41" else "absolute"), "molar"
+    return r["units"]["p"][0], r["units"]["l"][0]
+
+
+def kf_alphas_reference_pressure_mode(check_name, desc, viol):
+    """alpha_s hands the sample's RELATIVE pressures to reference.loading_at(pressure_unit=<sample unit>) without a
+    pressure mode: a reference stored (before or after its conversion) in absolute or relative% mode is looked up at
+    the wrong pressures (wrong alpha curve, or ValueError when they fall outside its range)."""
+    if check_name != "alpha_s":
+        return False
+    modes = {_ref_stored(desc)[0], desc["ref_tgt"]["p"][0]}
+    return modes != {"relative"} and (
+        viol.tag in ("alpha_s:units:alpha_curve", "alpha_s:units:n_sections")
+        or viol.tag.startswith("crash:ValueError:src/pygaps/utilities/isotherm_interpolator.py"))
+
+
+def kf_isosteric_tdep_loading(check_name, desc, viol):
+    """isosteric_enthalpy holds the stored loading NUMBER constant across the isotherms; in a gas / liquid volume
+    representation the same number is a different amount at each temperature."""
+    if check_name != "isosteric":
+        return False
+    bases = {t["l"][0] for t in desc["tgts"]}
+    if desc["kind"] == "syn":
+        bases.add(desc["src_l"][0])
+    return bool(bases & {"volume_gas", "volume_liquid"}) and viol.tag in (
+        "isosteric:units:loading", "isosteric:units:isosteric_enthalpy", "isosteric:units:slopes",
+        "isosteric:units:correlation", "isosteric:units:std_errs")
+
+
+def _henry_magnitudes(desc, clause):
+    """Largest stored loading number of the two isotherms the violated clause compares."""
+    iso = build_iso(desc["iso"])
+    m0 = float(np.max(np.abs(iso.loading())))
+    if clause == "scale":
+        return m0, m0 * desc["scale"]
+    conv = convert_clone(iso, desc["tgt"])
+    return m0, float(np.max(np.abs(conv.loading())))
+
+
+def kf_henry_slope_small_numbers(check_name, desc, viol):
+    """initial_henry_slope fits with scipy least_squares on the raw numbers; its absolute gradient tolerance stops the
+    fit early when the stored loadings are small numbers (all below 1 in the isotherm's own units, e.g. mol or kg per g):
+    K is off by 1e-4 ... x280."""
+    if check_name != "henry_slope" or viol.tag not in ("initial_henry_slope:units:K", "initial_henry_slope:scale:K"):
+        return False
+    return min(_henry_magnitudes(desc, viol.tag.split(":")[1])) < 1.0
+
+
+def kf_henry_virial_loading_scale(check_name, desc, viol):
+    """Virial.fit regresses ln(p/n) on n, n^2, n^3 with the raw numbers: when the stored loadings are not of order
+    1-100 (or change by more than 10x between the two isotherms compared) the columns are badly scaled, least_squares
+    stops early and K differs (1e-4 ... x450)."""
+    if check_name != "henry_virial" or viol.tag not in ("initial_henry_virial:units:K", "initial_henry_virial:scale:K"):
+        return False
+    m0, m1 = _henry_magnitudes(desc, viol.tag.split(":")[1])
+    return min(m0, m1) < 1.0 or max(m0, m1) > 100.0 or abs(math.log10(m1 / m0)) >= 1.0
+
+
+KNOWN_PREDICATES = [kf_alphas_reference_pressure_mode, kf_isosteric_tdep_loading,
+                    kf_henry_slope_small_numbers, kf_henry_virial_loading_scale]
 
 
 # =====================================================================================================================
@@ -1365,28 +1439,28 @@ def self_validate():
 
 
 CHECKS = [
-    Check("area_bet", check_bet, strategy=strat_bet, budget={"quick": 192, "thorough": 3000},
+    Check("area_bet", check_bet, strategy=strat_bet, budget={"quick": 320, "thorough": 8000},
           rule="area_BET: automatic (Rouquerol) and manual windows, both branches"),
-    Check("area_langmuir", check_langmuir, strategy=strat_langmuir, budget={"quick": 192, "thorough": 3000},
+    Check("area_langmuir", check_langmuir, strategy=strat_langmuir, budget={"quick": 320, "thorough": 8000},
           rule="area_langmuir: default and manual windows, both branches"),
-    Check("t_plot", check_tplot, strategy=strat_tplot, budget={"quick": 160, "thorough": 3000},
+    Check("t_plot", check_tplot, strategy=strat_tplot, budget={"quick": 320, "thorough": 8000},
           rule="t_plot: 4 thickness models, automatic sections and manual thickness limits"),
-    Check("alpha_s", check_alphas, strategy=strat_alphas, budget={"quick": 256, "thorough": 4000}, shrink_quick=False,
+    Check("alpha_s", check_alphas, strategy=strat_alphas, budget={"quick": 480, "thorough": 10000}, shrink_quick=False,
           rule="alpha_s: sample and reference converted independently; reference area BET / langmuir"),
-    Check("dr_plot", check_dr, strategy=lambda: strat_dubinin("dr"), budget={"quick": 128, "thorough": 2400},
+    Check("dr_plot", check_dr, strategy=lambda: strat_dubinin("dr"), budget={"quick": 192, "thorough": 6000},
           rule="dr_plot"),
-    Check("da_plot", check_da, strategy=lambda: strat_dubinin("da"), budget={"quick": 128, "thorough": 2400},
+    Check("da_plot", check_da, strategy=lambda: strat_dubinin("da"), budget={"quick": 192, "thorough": 6000},
           rule="da_plot with a given and with a fitted exponent"),
-    Check("psd_meso", check_meso, strategy=strat_meso, budget={"quick": 240, "thorough": 4500},
+    Check("psd_meso", check_meso, strategy=strat_meso, budget={"quick": 400, "thorough": 10000},
           rule="psd_mesoporous: pygaps-DH (3 geometries), BJH, DH; Kelvin / Kelvin-KJS; default and manual limits"),
-    Check("psd_micro", check_micro, strategy=strat_micro, budget={"quick": 192, "thorough": 4000}, shrink_quick=False,
+    Check("psd_micro", check_micro, strategy=strat_micro, budget={"quick": 320, "thorough": 6000}, shrink_quick=False,
           rule="psd_microporous: HK, HK-CY, RY, RY-CY x slit / cylinder / sphere x 3 adsorbent models"),
-    Check("psd_dft", check_dft, strategy=strat_dft, budget={"quick": 48, "thorough": 800}, shrink_quick=False,
-          rule="psd_dft with the shipped N2 77 K carbon slit kernel (unit invariance only)"),
-    Check("henry_slope", check_henry, strategy=lambda: strat_henry("slope"), budget={"quick": 192, "thorough": 3000},
+    Check("psd_dft", check_dft, strategy=strat_dft, budget={"quick": 192, "thorough": 6000},
+          rule="psd_dft with the shipped N2 77 K carbon slit kernel"),
+    Check("henry_slope", check_henry, strategy=lambda: strat_henry("slope"), budget={"quick": 256, "thorough": 5000},
           rule="initial_henry_slope: K changes by loading factor / pressure factor"),
-    Check("henry_virial", check_henry, strategy=lambda: strat_henry("virial"), budget={"quick": 96, "thorough": 1500},
+    Check("henry_virial", check_henry, strategy=lambda: strat_henry("virial"), budget={"quick": 192, "thorough": 5000},
           shrink_quick=False, rule="initial_henry_virial: K changes by loading factor / pressure factor"),
-    Check("isosteric", check_isosteric, strategy=strat_isosteric, budget={"quick": 160, "thorough": 3000},
+    Check("isosteric", check_isosteric, strategy=strat_isosteric, budget={"quick": 256, "thorough": 5000},
           shrink_quick=False, rule="isosteric_enthalpy: every sibling converted independently (common loading basis)"),
 ]
